@@ -109,6 +109,11 @@ class Cmp(object):
 
 vcmp = np.vectorize(Cmp)
 
+def _has_nan(value):
+    if isinstance(value, (list, tuple)):
+        return any(_has_nan(v) for v in value)
+    return is_nan(value)
+
 def sort(iterable):
     """
     implements sorting allowing for comparing of not-same-type objects
@@ -131,10 +136,13 @@ def sort(iterable):
     >>> sort([1,3,2,None]) == [None, 1, 2, 3]
 
     """
-    try:
-        return sorted(iterable)
-    except TypeError:
-        return sorted(iterable, key = Cmp)
+    iterable = list(iterable)
+    if not _has_nan(iterable):  ## native ordering is not a total order in the presence of nan
+        try:
+            return sorted(iterable)
+        except TypeError:
+            pass
+    return sorted(iterable, key = Cmp)
 
 
 # def _type(x):
